@@ -542,6 +542,13 @@ pub fn video_frame(cfg: &CfgGene, g: &VGene, idx: usize, first: bool, fc: &mut F
             }
             units.push(fc.sps.clone().unwrap());
             units.push(fc.pps.clone().unwrap());
+            // a unit that was the LAST one of the first frame may end in the zero bytes that closed that buffer; in front of
+            // another start code such zeros would belong to the start code, so they are not part of the unit here
+            for u in units.iter_mut() {
+                while u.len() > 1 && u.last() == Some(&0) {
+                    u.pop();
+                }
+            }
             let mut raw = Vec::new();
             for (i, u) in units.iter().enumerate() {
                 raw.extend_from_slice(if (i + sh as usize) % 2 == 0 { &[0, 0, 0, 1][..] } else { &[0, 0, 1][..] });
